@@ -379,6 +379,7 @@ func runC11(c *Ctx) {
 		// exact integer literals at the edges of the Go integer types (a float64 cannot spell them)
 		json.Number("18446744073709551615"), json.Number("9223372036854775808"), json.Number("9223372036854775807"),
 		json.Number("-9223372036854775808"), json.Number("4294967296"), json.Number("256"), json.Number("-1"), json.Number("0")}
+	sampled := 0
 	basesPerKind, sampleEvery := 3, 1
 	if c.thorough() {
 		basesPerKind, sampleEvery = 12, 1
@@ -400,7 +401,11 @@ func runC11(c *Ctx) {
 			}
 			raw, _ := b64.DecodeString(strings.Split(tok, ".")[1])
 			var tree interface{}
-			json.Unmarshal(raw, &tree)
+			// (numbers kept as written: a float64 would round the 64-bit values of the base and make every mutated
+			// token undecodable)
+			treeDec := json.NewDecoder(bytes.NewReader(raw))
+			treeDec.UseNumber()
+			treeDec.Decode(&tree)
 			var paths []jpath
 			collectPaths(tree, nil, &paths)
 			n := 0
@@ -491,12 +496,28 @@ func runC11(c *Ctx) {
 					for _, layout := range []string{"v2", "v1"} {
 						hdr := hdrV2
 						if layout == "v1" {
+							// (a version-2 payload signed the version-1 way is refused at the signature unless the mutation hit
+							// the version or the kind: one in eight of them; version-1 PAYLOADS mutated the same way go
+							// through both libraries in c11_v1.go)
+							if n%8 != 0 && !(len(p) > 0 && (fmt.Sprint(p[len(p)-1]) == "version" || fmt.Sprint(p[len(p)-1]) == "type")) {
+								continue
+							}
 							hdr = hdrV1
 						}
 						ft := forge(hdr, string(pj), layout, s)
 						exerciseToken(ft.Token, s, seedU, report(ft.Token, note+" "+layout))
 						c.sum.Evaluations++
 						c.sum.ImplChecks++
+						// (how far the mutated tokens get - recorded in the evidence: a stream the decoder refuses wholesale
+						// exercises nothing behind it)
+						sampled++
+						if sampled%16 == 0 {
+							if d, err := jwt.Decode(ft.Token); err == nil && d != nil {
+								c.count("sampled_mutated_token_decodes_" + layout)
+							} else {
+								c.count("sampled_mutated_token_refused_" + layout)
+							}
+						}
 					}
 					c.count("mutation_" + m.how)
 					distinct[fmt.Sprint(kind, m.how, len(p), fmt.Sprint(m.repl))] = true
